@@ -189,19 +189,76 @@ func satNE(les []Poly, nes []Poly) bool {
 	if len(nes) == 0 {
 		return fm(les)
 	}
-	if len(nes) > 12 {
-		// too many disequalities to split; ignore the surplus (sound for "not refuted")
-		nes = nes[:12]
+	// 1. single-variable disequalities x != c tighten integer bounds: with x >= c they give x >= c+1, etc.
+	les = append([]Poly{}, les...)
+	pending := append([]Poly{}, nes...)
+	for round := 0; round < 64; round++ {
+		changed := false
+		var rest []Poly
+		for _, p := range pending {
+			v, a, c, ok := singleVar(p) // a·v + c != 0
+			if !ok || c%a != 0 {
+				if ok {
+					continue // a·v = -c has no integer solution: the disequality always holds
+				}
+				rest = append(rest, p)
+				continue
+			}
+			val := -c / a
+			x := PAtom(v)
+			// does les entail v >= val (then v != val gives v >= val+1), or v <= val?
+			geq := !fm(append(append([]Poly{}, les...), x.Sub(PInt(val)).AddInt(1))) // refute v <= val-1
+			leq := !fm(append(append([]Poly{}, les...), PInt(val).Sub(x).AddInt(1)))  // refute v >= val+1
+			switch {
+			case geq && leq:
+				return false // v == val is forced
+			case geq:
+				les = append(les, PInt(val+1).Sub(x)) // v >= val+1
+				changed = true
+			case leq:
+				les = append(les, x.Sub(PInt(val-1))) // v <= val-1
+				changed = true
+			default:
+				rest = append(rest, p)
+			}
+		}
+		pending = rest
+		if !changed {
+			break
+		}
 	}
-	p := nes[0]
-	rest := nes[1:]
-	// P <= -1
-	a := append(append([]Poly{}, les...), p.AddInt(1))
-	if satNE(a, rest) {
-		return true
+	if !fm(les) {
+		return false
 	}
-	b := append(append([]Poly{}, les...), p.Neg().AddInt(1))
-	return satNE(b, rest)
+	// 2. a convex set minus finitely many hyperplanes is empty only if one hyperplane contains it
+	for _, p := range pending {
+		lo := fm(append(append([]Poly{}, les...), p.AddInt(1)))       // p <= -1 feasible?
+		hi := fm(append(append([]Poly{}, les...), p.Neg().AddInt(1))) // p >= 1 feasible?
+		if !lo && !hi {
+			return false
+		}
+	}
+	return true
+}
+
+// singleVar decomposes p as a·v + c with one plain atom v.
+func singleVar(p Poly) (v string, a, c int64, ok bool) {
+	n := 0
+	for k, coef := range p.t {
+		if k == "" {
+			c = coef
+			continue
+		}
+		if strings.ContainsAny(k, "*^") {
+			return "", 0, 0, false
+		}
+		v, a = k, coef
+		n++
+	}
+	if n != 1 || a == 0 {
+		return "", 0, 0, false
+	}
+	return v, a, c, true
 }
 
 func fm(les []Poly) bool {
